@@ -2,282 +2,24 @@ import Marwood.Vm.ListExt
 import Marwood.Lemmas.ListExtCode
 import Marwood.Lemmas.ProcInvMain
 /-!
-# "No value leads to entry code" for `listExtWith eqTag` — and why the law `ExtProc` had to be weakened
+# `ExtProc (listExtWith eqTag)`: the real builtins create no entry code and return nothing that leads to it
 
-`ExtProc ext` (`Lemmas/ProcInvOps.lean`) asks of a generic builtin: *from `HP h` alone* (every closure cell's
-lambda is procedure code, no value points to entry code) conclude `HP h'`. **No allocating builtin satisfies that**:
-`HP` says nothing about the free list, so take a heap whose free list starts with the address of a lambda cell that a
-closure cell refers to; `cons` allocates that address (`Heap::alloc` pops the free list), overwrites the lambda, and
-the closure cell of the new heap violates `HP`. The modelled opcodes never meet such a heap because their lemmas take
-`LF h` (lambda cells are not on the free list — a clause of the invariant `CInvG`), and at every use site of `ExtProc`
-`LF` of the current heap is in scope. `ExtProcL` is `ExtProc` with that premise added to the `eval` field; it is
-implied by `ExtProc` (`ExtProc.toL`), the invariant theorem `pinv_step` and its consequences `vmOkP_reaches` /
-`calleeOkAlong_of_vmOk` are re-proved from it here (`…_L`; the proofs of the opcodes are reused unchanged, only the
-builtin branch of CALL / TCALL and VPUSH mention the law), and it holds of the real builtins (`listExtWith_procL`).
+One lemma per builtin through the per-operation lemmas of `Lemmas/ProcInvOps.lean` (`putV_res`, `cwrite_res`,
+`deref_valPB`), then the table.
+
+`ExtProc.eval` carries the premise `LF h` (lambda cells are not on the free list — a clause of the invariant
+`CInvG`, in scope at every use of the law). It was added when this instance was proved: from `HP h` alone **no
+allocating builtin satisfies the law**. `HP` says nothing about the free list, so take a heap whose free list starts
+with the address of a lambda cell that a closure cell refers to; `cons` allocates that address (`Heap::alloc` pops the
+free list), overwrites the lambda, and the closure cell of the new heap violates `HP` (`ProcWitness.cons_breaks_hp`,
+`extProc_needs_lf`). The modelled opcodes never meet such a heap because their lemmas take `LF h` too.
 -/
 namespace Marwood.Lemmas.Good
 open Marwood Marwood.Vm Marwood.Vm.Verify Marwood.Vm.Concrete Marwood.Vm.Concrete.ListExt Marwood.Lemmas.Sim
 open Marwood.Heap (GcState)
 open StepC
 
-/-- `ExtProc` with the premise `LF h` (lambda cells are not on the free list) for the generic builtins -/
-structure ExtProcL (ext : ExtOps) : Prop where
-  eval : ∀ (h : CHeap) (id : Nat) (args : List VCell) (h' : CHeap) (v : VCell), HP h → LF h →
-    (∀ a ∈ args, plainGlob a = true ∧ neB h a = true) →
-    ext.builtinEval h id args = .ok (h', v) → HP h' ∧ EShr h h' ∧ valPB h' v = true
-  compile : ∀ (h : CHeap) (d : VCell) (h' : CHeap) (v : VCell), HP h → valPB h d = true →
-    ext.compileEval h d = .ok (h', v) → HP h' ∧ EShr h h' ∧ valPB h' v = true
-  vpush : ∀ (h : CHeap) (vec a : VCell) (h' : CHeap), HP h → plainGlob a = true →
-    neB h a = true → ext.vectorPush h vec a = .ok h' → HP h' ∧ EShr h h'
-
-theorem ExtProc.toL {ext : ExtOps} (ep : ExtProc ext) : ExtProcL ext :=
-  ⟨fun h id args h' v hp _ ha he => ep.eval h id args h' v hp ha he, ep.compile, ep.vpush⟩
-
-/-! ## the builtin branch of CALL / TCALL and VPUSH from the weaker law -/
-
-section
-variable {ext : ExtOps} {s s2 : St CHeap} {v : VCell}
-
-theorem builtinEvalProc_pv_L (ep : ExtProcL ext) (ecl : ExtCodeLawsV ext) (ci : CInvG IsValue s.heap)
-    (hblk : ArgBlock s.stack s.stack.sp) (p : PInv s)
-    (h : builtinEvalProc (concreteOps ext) s = .ok (s2, v)) : BRes s s2 v := by
-  unfold builtinEvalProc at h
-  obtain ⟨⟨a, st1⟩, h1, h⟩ := bind_ok h
-  obtain ⟨argc, h2, h⟩ := bind_ok h
-  obtain ⟨hge, h⟩ := ite_err_ok h
-  obtain ⟨⟨e, st2⟩, h3, h⟩ := bind_ok h
-  obtain ⟨⟨h', lam⟩, h4, h⟩ := bind_ok h
-  obtain ⟨ipO, _, h⟩ := bind_ok h
-  cases h
-  obtain ⟨p1, p2, p3, p4⟩ := pop_inv h1
-  obtain ⟨q1, q2, q3, q4⟩ := pop_inv h3
-  cases a <;> simp only [asArgc] at h2 <;> cases h2
-  have hargc : argc = 1 := by omega
-  subst hargc
-  obtain ⟨_, sm1, _, _⟩ := p.sm.pop h1
-  obtain ⟨hne, sm2, _, _⟩ := sm1.pop h3
-  rw [p3, p4] at q2
-  have hpg : plainGlob e = true := hblk 1 p2 _ _ (by omega) (by omega) q2
-  simp only [concreteOps] at h4
-  obtain ⟨r1, r2, r3⟩ := ep.compile _ _ _ _ p.hp (deref_valPB p.hp hpg hne) h4
-  have lf' : LF h' := LF.of_cinv (ecl.compileEval ci h4).1
-  have sm3 : SM h' (st2.push (.argc 0)) s.stack.sp := (sm2.heap r2).push rfl
-  exact ⟨r1, lf', r2, r2.neB p.acc, SM.of_stk sm3.stk, r3⟩
-
-theorem builtinGeneric_pv_L {id : Nat} (ep : ExtProcL ext) (ecl : ExtCodeLawsV ext) (ci : CInvG IsValue s.heap)
-    (hblk : ArgBlock s.stack s.stack.sp) (p : PInv s)
-    (h : builtinGeneric (concreteOps ext) id s = .ok (s2, v)) : BRes s s2 v := by
-  unfold builtinGeneric at h
-  obtain ⟨⟨a, st1⟩, h1, h⟩ := bind_ok h
-  obtain ⟨argc, h2, h⟩ := bind_ok h
-  obtain ⟨⟨args, st2⟩, h3, h⟩ := bind_ok h
-  obtain ⟨⟨h', w⟩, h4, h⟩ := bind_ok h
-  cases h
-  obtain ⟨p1, p2, p3, p4⟩ := pop_inv h1
-  obtain ⟨q1, q2, q3⟩ := popN_inv argc h3
-  cases a <;> simp only [asArgc] at h2 <;> cases h2
-  obtain ⟨_, sm1, _, _⟩ := p.sm.pop h1
-  obtain ⟨hnes, sm2, _, _⟩ := sm1.popN h3
-  have hargs : ∀ x ∈ args, plainGlob x = true ∧ neB s.heap x = true := by
-    intro x hx
-    obtain ⟨i, i1, i2, i3⟩ := q3 x hx
-    rw [p4] at i3
-    exact ⟨hblk argc p2 i x (by omega) (by omega) i3, hnes x hx⟩
-  simp only [concreteOps] at h4
-  obtain ⟨r1, r2, r3⟩ := ep.eval _ _ _ _ _ p.hp (LF.of_cinv ci) hargs h4
-  have lf' : LF h' := LF.of_cinv (ecl.builtinEval ci h4).1
-  have sm3 : SM h' st2 s.stack.sp := sm2.heap r2
-  exact ⟨r1, lf', r2, r2.neB p.acc, SM.of_stk sm3.stk, r3⟩
-
-theorem runBuiltin_pv_L {id : Nat} {s s' : St CHeap} (ep : ExtProcL ext) (ecl : ExtCodeLawsV ext) (g : GoodI s)
-    (ci : CInvG IsValue s.heap) (hblk : ArgBlock s.stack s.stack.sp) (p : PInv s)
-    (hr : runBuiltin (concreteOps ext) id s = .ok s') : PInv s' := by
-  rw [StepC.runBuiltin_eq] at hr
-  obtain ⟨⟨s2, v⟩, h1, hr⟩ := bind_ok hr
-  have lf : LF s.heap := LF.of_cinv ci
-  have key : BRes s s2 v := by
-    cases hk : (concreteOps ext).builtinKind s.heap id <;> rw [hk] at h1 <;> simp only at h1
-    · exact builtinApply_pv lf hblk p h1
-    · exact builtinEvalProc_pv_L ep ecl ci hblk p h1
-    · exact builtinCallcc_pv lf hblk p h1
-    · exact builtinGeneric_pv_L ep ecl ci hblk p h1
-  obtain ⟨k1, k2, _, k4, k5, k6⟩ := key
-  unfold StepC.builtinTail at hr
-  simp only at hr
-  by_cases hp : ∃ q, v = .ptr q
-  · obtain ⟨q, rfl⟩ := hp
-    simp only at hr
-    cases hr
-    exact ⟨k1, neB_of_valPB k6, k5.stk⟩
-  · have e : s' = { s2 with heap := (maybePutV s2.heap v).1, acc := (maybePutV s2.heap v).2 } := by
-      cases v <;> first | (exact absurd ⟨_, rfl⟩ hp) | (simp only [concreteOps] at hr; cases hr; rfl)
-    subst e
-    obtain ⟨r, hne⟩ := maybePutV_res k2 k1 k6
-    exact ⟨r.hp, hne, (k5.heap r.eshr).stk⟩
-
-end
-
-section
-variable {ext : ExtOps} {s0 : St CHeap}
-
-theorem pv_call_L {s' : St CHeap} {b : Bool} (ep : ExtProcL ext) (ecl : ExtCodeLawsV ext) (g : GoodI s0)
-    (ci : CInvG IsValue s0.heap) (sd : StackDisc s0) (p : PInv s0) (hop : opAt s0 .callAcc)
-    (hx : exec (concreteOps ext) .callAcc (nx s0) = .ok (s', b)) : PInv s' := by
-  unfold exec at hx
-  obtain ⟨s1, h1, hx⟩ := bind_ok hx
-  cases hx
-  have hblk : ArgBlock (nx s0).stack (nx s0).stack.sp := sd.call (.inl hop)
-  unfold stepCall at h1
-  cases hc : (concreteOps ext).callee (nx s0).heap (nx s0).acc with
-  | builtin id => rw [hc] at h1; exact runBuiltin_pv_L ep ecl g.nx ci hblk p.nx h1
-  | continuation c => rw [hc] at h1; exact invokeCont_pv g.nx p.nx hc h1
-  | other => rw [hc] at h1; cases h1
-  | closure lam env =>
-    rw [hc] at h1
-    cases h1
-    exact p.mk' rfl p.acc ((p.sm.push (v := .envPtr s0.ep) rfl).push (v := .instrPtr s0.ipL (s0.ipO + 1)) rfl)
-  | lambda =>
-    rw [hc] at h1
-    obtain ⟨lam, _, h1⟩ := bind_ok h1
-    cases h1
-    exact p.mk' rfl p.acc ((p.sm.push (v := .envPtr s0.ep) rfl).push (v := .instrPtr s0.ipL (s0.ipO + 1)) rfl)
-
-theorem pv_tcall_L {s' : St CHeap} {b : Bool} (ep : ExtProcL ext) (ecl : ExtCodeLawsV ext) (g : GoodI s0)
-    (ci : CInvG IsValue s0.heap) (sd : StackDisc s0) (p : PInv s0) (hop : opAt s0 .tcallAcc)
-    (hx : exec (concreteOps ext) .tcallAcc (nx s0) = .ok (s', b)) : PInv s' := by
-  unfold exec at hx
-  obtain ⟨s1, h1, hx⟩ := bind_ok hx
-  cases hx
-  have hblk : ArgBlock (nx s0).stack (nx s0).stack.sp := sd.call (.inr hop)
-  have hfl : (nx s0).bp + 4 ≤ (nx s0).stack.sp := by
-    obtain ⟨l, hl, hop'⟩ := hop
-    exact sd.frameLive l hl (.inr hop')
-  unfold stepTCall at h1
-  cases hc : (concreteOps ext).callee (nx s0).heap (nx s0).acc with
-  | builtin id => rw [hc] at h1; exact runBuiltin_pv_L ep ecl g.nx ci hblk p.nx h1
-  | continuation c => rw [hc] at h1; exact invokeCont_pv g.nx p.nx hc h1
-  | other => rw [hc] at h1; cases h1
-  | closure lam env =>
-    rw [hc] at h1
-    obtain ⟨lam', _, h1⟩ := bind_ok h1
-    exact tcall_rest_pv p.nx hfl h1
-  | lambda =>
-    rw [hc] at h1
-    obtain ⟨lam', _, h1⟩ := bind_ok h1
-    exact tcall_rest_pv p.nx hfl h1
-
-theorem pv_vpush_L {s' : St CHeap} {b : Bool} (ep : ExtProcL ext) (g : GoodI s0) (p : PInv s0)
-    (hx : exec (concreteOps ext) .vpushAcc (nx s0) = .ok (s', b)) : PInv s' := by
-  unfold exec at hx
-  obtain ⟨⟨v, st1⟩, hp1, hx⟩ := bind_ok hx
-  obtain ⟨h', h2, hx⟩ := bind_ok hx
-  cases hx
-  obtain ⟨hpos, hcell, rfl⟩ := StepB.pop_inv hp1
-  have hcell' : s0.stack.cells[s0.stack.sp]? = some v := hcell
-  have nv : neB s0.heap v = true := p.stk _ _ (Nat.le_refl _) hcell'
-  have nvec : neB s0.heap (deref s0.heap v) = true := by
-    cases v with
-    | ptr q =>
-      show neB s0.heap (getAt s0.heap q) = true
-      unfold getAt
-      cases hc : s0.heap.cells[q]? with
-      | none => rfl
-      | some c =>
-        cases c with
-        | val w => exact neB_of_valPB (p.hp.cells q _ hc)
-        | _ => rfl
-    | _ => exact nv
-  obtain ⟨hp', es⟩ := ep.vpush s0.heap (deref s0.heap v) s0.acc h' p.hp g.accv p.acc h2
-  refine ⟨hp', es.neB nvec, ((p.sm.resp (st' := { s0.stack with sp := s0.stack.sp - 1 }) rfl (.inr ?_)).heap es).stk⟩
-  show s0.stack.sp - 1 ≤ s0.stack.sp
-  omega
-
-/-- all 16 opcodes -/
-theorem pv_exec_L (ep : ExtProcL ext) (ecl : ExtCodeLawsV ext) {s' : St CHeap} {b : Bool} (g : GoodI s0)
-    (ci : CInvG IsValue s0.heap) (sd : StackDisc s0) (p : PInv s0) {op : Op} (hop : opAt s0 op)
-    (hx : exec (concreteOps ext) op (nx s0) = .ok (s', b)) : PInv s' := by
-  have lf : LF s0.heap := .of_cinv ci
-  cases op with
-  | cons => exact pv_cons lf sd p hop hx
-  | jmp => exact pv_jmp p hx
-  | jnt => exact pv_jnt p hx
-  | mov => exact pv_mov g lf sd p hop hx
-  | movImm => exact pv_movImm g lf p hop hx
-  | push => exact pv_push sd p hx
-  | pushAcc => exact pv_pushAcc p hx
-  | pushImm => exact pv_pushImm p hop hx
-  | halt => exact pv_halt p hx
-  | vpushAcc => exact pv_vpush_L ep g p hx
-  | callAcc => exact pv_call_L ep ecl g ci sd p hop hx
-  | closureAcc => exact pv_closure g lf p hx
-  | enter => exact pv_enter lf p hx
-  | ret => exact pv_ret sd p hop hx
-  | tcallAcc => exact pv_tcall_L ep ecl g ci sd p hop hx
-  | varArg => exact pv_varArg lf sd p hop hx
-
-/-- **`PInv` is preserved by `run_one`** under the weaker law -/
-theorem pinv_step_L (ep : ExtProcL ext) (ecl : ExtCodeLawsV ext) {s s' : St CHeap} {b : Bool} (g : GoodI s)
-    (ci : CInvG IsValue s.heap) (sd : StackDisc s) (p : PInv s) (hs : step (concreteOps ext) s = .ok (s', b)) :
-    PInv s' := by
-  rw [step_eq] at hs
-  obtain ⟨⟨op, s1⟩, hro, hx⟩ := bind_ok hs
-  obtain ⟨rfl, hop⟩ := readOpcode_inv hro
-  exact pv_exec_L ep ecl g ci sd p hop hx
-
-end
-
-/-! ## the bundled invariant -/
-
-variable {ext : ExtOps} {ecl : ExtCodeLawsV ext}
-
-theorem vmOkP_step_L (el : ExtLaws ext) (eg : ExtGood ext) (ep : ExtProcL ext) {s s' : St CHeap} {b : Bool}
-    (h : VmOkP ext ecl s) (sm : Small s.heap) (hs : step (concreteOps ext) s = .ok (s', b)) (sm' : Small s'.heap) :
-    VmOkP ext ecl s' :=
-  ⟨vmOk_step el eg h.1 (fun _ => h.calleeOk) sm hs sm', pinv_step_L ep ecl h.1.1 h.1.cinv h.1.stackDisc h.2 hs⟩
-
-/-- **`VmOk ∧ PInv` is an invariant of the REAL concrete machine** under the weaker law -/
-theorem vmOkP_reaches_L (force : Bool) (el : ExtLaws ext) (eg : ExtGood ext) (ep : ExtProcL ext) {s0 : St CHeap}
-    (h0 : VmOkP ext ecl s0) (sb : SizeBounded (machine ext force) s0) :
-    ∀ s', Reaches (machine ext force) s0 s' → VmOkP ext ecl s' := by
-  intro s' hr
-  induction hr with
-  | refl => exact h0
-  | @next s1 s2 hr1 e ih =>
-    have e' : vmStep (concreteOps ext) s1 = .next s2 := e
-    unfold vmStep at e'
-    cases hst : step (concreteOps ext) s1 with
-    | ok r =>
-      obtain ⟨s3, b⟩ := r
-      rw [hst] at e'
-      cases b <;> simp only at e'
-      · cases e'
-        exact vmOkP_step_L el eg ep ih (sb _ hr1) hst (sb _ (.next hr1 e))
-      · cases e'
-    | err x => rw [hst] at e'; cases e'
-    | panic x => rw [hst] at e'; cases e'
-  | @halt s1 s2 hr1 e ih =>
-    have e' : vmStep (concreteOps ext) s1 = .halt s2 := e
-    unfold vmStep at e'
-    cases hst : step (concreteOps ext) s1 with
-    | ok r =>
-      obtain ⟨s3, b⟩ := r
-      rw [hst] at e'
-      cases b <;> simp only at e'
-      · cases e'
-      · cases e'
-        exact vmOkP_step_L el eg ep ih (sb _ hr1) hst (sb _ (.halt hr1 e))
-    | err x => rw [hst] at e'; cases e'
-    | panic x => rw [hst] at e'; cases e'
-  | @gc s1 hr1 ih =>
-    exact vmOkP_gc force ih (sb _ (.gc hr1))
-
-/-- **`CalleeOkAlong` discharged** under the weaker law -/
-theorem calleeOkAlong_of_vmOk_L (force : Bool) (el : ExtLaws ext) (eg : ExtGood ext) (ep : ExtProcL ext)
-    {s0 : St CHeap} (h0 : VmOk ext ecl s0) (p0 : PInv s0) (sb : SizeBounded (machine ext force) s0) :
-    CalleeOkAlong (machine ext force) s0 :=
-  fun s' hr _ => (vmOkP_reaches_L force el eg ep ⟨h0, p0⟩ sb s' hr).calleeOk
-
-/-! ## the real builtins satisfy the weaker law -/
+/-! ## one lemma per builtin -/
 
 section
 variable (eqTag : String → String → Bool) {h h' : CHeap} {v : VCell}
@@ -377,7 +119,7 @@ theorem evalPrim_proc (p : Prim) (hp : HP h) (lf : LF h) {args : List VCell}
   | _ :: _ :: _ :: _, _ => cases p <;> cases he
 
 /-- **the real builtins create no entry code and return nothing that leads to entry code** -/
-theorem listExtWith_procL : ExtProcL (listExtWith eqTag) where
+theorem listExtWith_proc : ExtProc (listExtWith eqTag) where
   eval := by
     intro h id args h' v hp lf hargs he
     have he' : ListExt.builtinEval eqTag h id args = .ok (h', v) := he
@@ -385,14 +127,14 @@ theorem listExtWith_procL : ExtProcL (listExtWith eqTag) where
     cases hq : primOf id with
     | none => rw [hq] at he'; cases he'
     | some p => rw [hq] at he'; exact evalPrim_proc eqTag p hp lf hargs he'
-  compile := fun _ _ _ _ _ _ h => (by cases h)
-  vpush := fun _ _ _ _ _ _ _ h => (by cases h)
+  compile := fun _ _ _ _ _ _ _ h => (by cases h)
+  vpush := fun _ _ _ _ _ _ _ _ h => (by cases h)
 
-theorem listExt_procL : ExtProcL listExt := listExtWith_procL _
+theorem listExt_proc : ExtProc listExt := listExtWith_proc _
 
 end
 
-/-! ## the unweakened law is not satisfiable by `cons` -/
+/-! ## why the law carries the premise `LF h` -/
 
 namespace ProcWitness
 
@@ -418,12 +160,15 @@ theorem cons_breaks_hp : ∃ h' v, listExt.builtinEval hBad idCons [.bool true, 
 
 end ProcWitness
 
-/-- **`ExtProc` (without the `LF` premise) does not hold of the real builtins** — of no parameter set whose `cons`
-    allocates. `ExtProcL` is the law to assume. -/
-theorem not_extProc_listExt : ¬ ExtProc listExt := by
-  intro ep
+/-- **the premise `LF h` of `ExtProc.eval` cannot be dropped**: the law as it was first stated (from `HP h` alone)
+    is false of the real `cons` — of every parameter set whose `cons` allocates -/
+theorem extProc_needs_lf :
+    ¬ ∀ (h : CHeap) (id : Nat) (args : List VCell) (h' : CHeap) (v : VCell), HP h →
+      (∀ a ∈ args, plainGlob a = true ∧ neB h a = true) →
+      listExt.builtinEval h id args = .ok (h', v) → HP h' ∧ EShr h h' ∧ valPB h' v = true := by
+  intro law
   obtain ⟨h', v, he, hn⟩ := ProcWitness.cons_breaks_hp
-  refine hn (ep.eval _ _ _ _ _ ProcWitness.hBad_hp ?_ he).1
+  refine hn (law _ _ _ _ _ ProcWitness.hBad_hp ?_ he).1
   intro a ha
   simp only [List.mem_cons, List.not_mem_nil, or_false, or_self] at ha
   subst ha
